@@ -33,6 +33,12 @@ TEXT = {
         'level_text': 'Bit-precise proof, for each of the 96 table entries and all 65537 port choices (given / omitted), that the dedicated module and the generic entry point (without timeout, with the default timeout, with a sample of extra settings) reach the layer below with the destination port = the given port or the DEFINITION default, the definition protocol version / engine / gather settings (or the extra settings where the protocol takes them) and the timeout unchanged. A vacuity guard (same harness with a wrong expected port, must be refuted) runs every time.',
         'level_note': 'Recorders replace the protocol functions, so equal arguments are taken to give equal traffic; only the first call to the layer below is checked (the path is cut there); extra settings are sampled, not enumerated; response post-processing by dedicated modules is not compared; Kani/CBMC trusted.',
     },
+    'C16': {
+        'technique': 'Verus contracts on the real SearchFilters builders (three maps keyed by filter kind), ValveMasterServer::query_specific (one request, reply page decoded as the left inverse of the page encoder) and ValveMasterServer::query (paging loop with a ghost page counter)',
+        'engine': 'verus+kani',
+        'level_text': 'Unbounded proof: insert / insert_nand / insert_nor put the filter into exactly their own group, replacing an earlier filter of the same kind and leaving the other groups alone; query_specific sends exactly one datagram, the payload for (region, filters, seed address), asks for 1400 bytes and returns exactly the addresses of any well-formed page up to that size, in order; the complete query, for every page sequence ending with the 0.0.0.0:0 terminator, returns all listed addresses in order without the terminator, sends one request per page each seeded with the last address of the previous page, and consumes nothing after the terminator.',
+        'level_note': 'The byte text of the request is checked by Kani harnesses on the real construct_payload and Filter::to_bytes (all regions, all boolean filters; sampled ports and text values: bounded) and is an uninterpreted function of its four arguments in the Verus part; the \\nand / \\nor group prefixes are not checked; IpAddr::to_string injectivity, discriminant and the UDP transport are assumed models; a satisfiability witness for the paging hypothesis is proved on every run.',
+    },
     'C06': {
         'technique': 'Verus contracts on the real Unreal2StringDecoder and the three parse functions: decoder == reference model for every length byte, parsers are left inverses of spec encoders (loops by quantified invariants)',
         'level_text': 'Unbounded proof: decode_string matches the UE2 string model for all 256 length-byte values (Latin-1 and UCS-2, optional 0x01, cursor never past the data), ServerInfo::parse / Players::parse (bot iff ping == 0, every player once, nothing already collected touched) / MutatorsAndRules::parse (every key/value pair recorded once in order) on well-formed bodies of any length, response-header check, request bytes, greedy receive loops terminate on the finite reply script.',
